@@ -3,9 +3,12 @@ package main
 import (
 	"bytes"
 	"encoding/xml"
+	"reflect"
 	"sort"
 	"strconv"
 	"strings"
+
+	"mellium.im/xmpp/stanza"
 )
 
 // "Unmarshalling arbitrary XML into any of these types returns a value or an error" - into ANY
@@ -19,6 +22,8 @@ import (
 //	fresh1  a decoded into a fresh receiver
 //	fresh2  b decoded into a fresh receiver
 //	reused  a, then b decoded into the same receiver
+//	kept    a decoded into a receiver, the receiver COPIED by assignment (kept := *receiver), b decoded
+//	        into the receiver, the receiver and the copy encoded: the copy as it is after all that
 //
 // A view is {outcome: "value", leaves: {path: [..]}} or {outcome: "error"}; a panic is recorded
 // as the view's failure.  The specification (ReuseOK) relates the views leaf by leaf.
@@ -27,6 +32,59 @@ import (
 
 func init() {
 	adapters["reuse"] = runReuse
+	adapters["reuse.core"] = runReuse
+	for _, kind := range []string{"iq", "message", "presence"} {
+		kind := kind
+		stds[kind] = Std{
+			Build: func(v Rec) interface{} { return buildStanza(kind, v).val },
+			New: func() interface{} {
+				switch kind {
+				case "iq":
+					return &stanza.IQ{}
+				case "message":
+					return &stanza.Message{}
+				}
+				return &stanza.Presence{}
+			},
+			Proj: func(p interface{}) Rec {
+				switch x := p.(type) {
+				case *stanza.IQ:
+					return projIQ(*x)
+				case *stanza.Message:
+					return projMessage(*x)
+				}
+				return projPresence(*p.(*stanza.Presence))
+			},
+		}
+	}
+}
+
+// hasRefs: the type holds a pointer or a map (through fields, exported or not, and slice elements):
+// something that a copy made by assignment shares with the original by the language's definition.
+func hasRefs(t reflect.Type, depth int) bool {
+	if depth > 8 {
+		return false
+	}
+	switch t.Kind() {
+	case reflect.Ptr, reflect.Map:
+		return true
+	case reflect.Struct:
+		for i := 0; i < t.NumField(); i++ {
+			if hasRefs(t.Field(i).Type, depth+1) {
+				return true
+			}
+		}
+	case reflect.Slice, reflect.Array:
+		return hasRefs(t.Elem(), depth+1)
+	}
+	return false
+}
+
+// copyOf returns a pointer to a copy made by assignment (*c = *ptr) of the value ptr points to.
+func copyOf(ptr interface{}) interface{} {
+	c := reflect.New(reflect.TypeOf(ptr).Elem())
+	c.Elem().Set(reflect.ValueOf(ptr).Elem())
+	return c.Interface()
 }
 
 // flatten maps every leaf of a projection to a list: scalars become a list of one, lists stay
@@ -138,5 +196,16 @@ func runReuse(v Rec, o *Obs) {
 		view("fresh1", dec[0])
 		view("fresh2", dec[1])
 		view("reused", dec[0], dec[1])
+		o.dec(mode+"/kept", mode+"/kept", func() (Rec, error) {
+			ptr := s.New()
+			if err := dec[0](ptr); err != nil {
+				return Rec{"outcome": "error"}, nil
+			}
+			kept := copyOf(ptr)
+			_ = dec[1](ptr) // whatever comes of it
+			guard(func() error { _, err := xml.Marshal(ptr); return err })
+			guard(func() error { _, err := xml.Marshal(kept); return err })
+			return Rec{"outcome": "value", "leaves": leavesOf(ty, s, kept), "refs": hasRefs(reflect.TypeOf(kept).Elem(), 0)}, nil
+		})
 	}
 }
